@@ -2027,18 +2027,11 @@ impl<'a> TokenBasedLuaGenerator<'a> {
 }
 
 fn is_single_line_comment(content: &str) -> bool {
-    let is_multiline_comment = content.starts_with("--[") && {
-        if let Some((closing_bracket_index, _)) =
-            content.chars().skip(3).enumerate().find(|(_, c)| *c == '[')
-        {
-            content
-                .get(3..closing_bracket_index)
-                .map(|substring| substring.chars().all(|c| c == '='))
-                .unwrap_or(true)
-        } else {
-            false
-        }
-    };
+    // a long comment starts with `--[`, any number of `=` and another `[`
+    let is_multiline_comment = content
+        .strip_prefix("--[")
+        .map(|rest| rest.trim_start_matches('=').starts_with('['))
+        .unwrap_or(false);
 
     !is_multiline_comment
 }
